@@ -56,6 +56,13 @@ Definition tcall_eqb (m : call) (o : tobs_call) : bool :=
   | _, _ => false
   end.
 
+Fixpoint list_eqb2 {A B} (f : A -> B -> bool) (a : list A) (b : list B) : bool :=
+  match a, b with
+  | [], [] => true
+  | x :: xr, y :: yr => f x y && list_eqb2 f xr yr
+  | _, _ => false
+  end.
+
 Inductive case :=
 | CUnit (t a : json) (la : option json) (as_set : bool) (ob : obs)
 | CTail (cfg : tail_cfg) (target live : json) (ann : option json)
@@ -66,7 +73,7 @@ Definition check_case (c : case) : bool :=
   | CUnit t a la s ob => obs_ok (vmatch t a la s) ob
   | CTail cfg t l ann r calls =>
       match tail cfg t l ann with
-      | Some (mr, mc) => tres_eqb mr r && list_eqb tcall_eqb mc calls
+      | Some (mr, mc) => tres_eqb mr r && list_eqb2 tcall_eqb mc calls
       | None => false
       end
   end.
